@@ -29,7 +29,7 @@ from flexstack.geonet.ls_extended_header import LSRequestExtendedHeader, LSReply
 from flexstack.geonet.mib import AreaForwardingAlgorithm
 import flexstack.geonet.router as router_mod
 
-MODULES = ["Props.C08"]
+MODULES = ["Props.C08"] + __import__("gen_extract").bridge_modules("C08")   # + bridge lemmas of the functions py2lean could extract
 DRIVERS = ["LocT"]
 TRUSTED = [
     "modelled rather than verified: PDR (float EMA) is left out of the model; GNAddress dict keying is modelled as "
@@ -42,7 +42,10 @@ ASSUMPTIONS = [
     "known finding C08-KF1: expiry is lazy - between the expiry instant of an entry and the next reception (from any "
     "source) get_entry/get_neighbours still return the expired entry (pinned by 8 unit tests that rely on get_entry "
     "not purging)",
-    "coordinates in generated packets are non-negative (wire codec for negative values is repaired under C02)",
+    "well-formed configuration: itsGnDPLLength > 0 (Props.C08.dplLen_default_wf pins the regenerated MIB default; with 0 "
+    "Python's deque(maxlen=0) makes check_duplicate_sn raise IndexError on every multi-hop reception - exercised by "
+    "check_dpl against the model's explicit error branch dplPushE, not part of the history runs)",
+    "GNAddress dict keying = full address up to 64-bit hash collisions (Props.C08.gnaddress_keying_facts, regenerated)",
 ]
 
 W = 1 << 32
@@ -293,6 +296,48 @@ class Oracle:
 
 # ------------------------------------------------------------------------------------------------ histories
 
+def gen_lat(rng):
+    """signed WGS-84 latitude in 1/10 microdegree incl. the poles and the equator (both hemispheres on the wire)"""
+    return rng.choice([rng.randrange(-900000000, 900000001), rng.randrange(-900000000, 900000001), 900000000, -900000000, 0, -1, 1])
+
+
+def gen_lon(rng):
+    return rng.choice([rng.randrange(-1800000000, 1800000001), rng.randrange(-1800000000, 1800000001), 1800000000, -1800000000, 0, -1, 1])
+
+
+def gen_chain(rng):
+    """refresh chain (Props.C08.present_until_latest_expiry): one source keeps refreshing its PV within the lifetime of
+    the previous one, foreign traffic and purges in between; observations past the FIRST stamp + lifetime, at the
+    LATEST stamp + lifetime -1/0/+1"""
+    lifetime_s = rng.choice([1, 2, 5, 20])
+    L = lifetime_s * 1000
+    base = rng.choice([rng.randrange(10 ** 9, 10 ** 12), rng.randrange(3, 200) * W - rng.randrange(0, 3 * L)])
+    self_addr, a, other, third = addr_int(1), addr_int(10), addr_int(11), addr_int(99)
+    ops, now, T = [], base, base + rng.randrange(-500, 501)
+    first = rng.choice(["beacon", "shb", "tsb", "gbc"])
+    ops.append(["pkt", first, a, T, gen_lat(rng), gen_lon(rng), 1, now])
+    sn = 2
+    for _ in range(rng.randrange(2, 7)):
+        step = rng.choice([L - 1, L, rng.randrange(L // 2, L + 1), rng.randrange(1, L + 1)])
+        now = max(now, T + step)                     # not later than the lifetime after the newest stamp
+        if rng.random() < 0.5:
+            ops.append(["tick", now])
+        if rng.random() < 0.4:
+            ops.append(["pkt", rng.choice(KINDS), other, now, gen_lat(rng), gen_lon(rng), sn, now])
+        if rng.random() < 0.3:
+            ops.append(["ref", now])
+        T = now + rng.randrange(-300, 301)
+        ops.append(["pkt", rng.choice(KINDS), a, T, gen_lat(rng), gen_lon(rng), sn, now])
+        sn += 1
+    for d in (L - 1, L, L + 1):
+        now = max(now, T + d)
+        ops.append(["tick", now])
+        ops.append(["pkt", "tsb", other, now, gen_lat(rng), gen_lon(rng), sn, now] if rng.random() < 0.5 else ["ref", now])
+        sn += 1
+    return {"kind": "hist", "self": self_addr, "lifetime_s": lifetime_s, "dpl": rng.choice([1, 2, 3, 8]), "base": base,
+            "third": third, "ops": ops}
+
+
 def gen_history(rng, n_ops):
     """one random history; every op is a list (JSON-able)"""
     lifetime_s = rng.choice([1, 2, 5, 20])
@@ -341,7 +386,7 @@ def gen_history(rng, n_ops):
                     T = now + d
             known_T[a] = max(T, known_T.get(a, T))
             sn = rng.choice([rng.randrange(0, 4), rng.randrange(0, 65536), 65535, 0])
-            ops.append(["pkt", kind, a, T, rng.randrange(0, 900000000), rng.randrange(0, 1800000000), sn, now])
+            ops.append(["pkt", kind, a, T, gen_lat(rng), gen_lon(rng), sn, now])
         elif x < 0.90:
             y = rng.random()
             if y < 0.3:
@@ -382,11 +427,19 @@ def model_lines(case, eager=False):
     return lines
 
 
+def observed_addrs(case):
+    """addresses whose get_entry is observed after every op: those named by the operations plus `observe` (kept when a
+    history is truncated / shrunk, so that an entry appearing under an address that no remaining op names - e.g. the
+    same MID with another station type - stays visible to the oracle on replay)"""
+    return sorted(set(case.get("observe", [])) | {op[2] for op in case["ops"] if op[0] == "pkt"} |
+                  {op[1] for op in case["ops"] if op[0] == "ens"})
+
+
 def run_real(case, clock, judge=True):
     """returns (per-op real output lines, list of (what, finding) violations with op index)"""
     real = Real(clock, case["self"], case["lifetime_s"], case["dpl"], case["base"])
     orc = Oracle(case["self"], case["lifetime_s"] * 1000, case["dpl"])
-    addrs = sorted({op[2] for op in case["ops"] if op[0] == "pkt"} | {op[1] for op in case["ops"] if op[0] == "ens"})
+    addrs = observed_addrs(case)
     out, bad = ["ok"], []
     now = case["base"]
     for i, op in enumerate(case["ops"]):
@@ -446,6 +499,7 @@ def check_case(ctx, case, clock, use_model=True):
     out, bad = run_real(case, clock)
     ctx.evals(len(case["ops"]))
     reported = False
+    case = dict(case, observe=observed_addrs(case))
     for i, what, kf in bad:
         if kf is None and not reported:
             small = shrink(dict(case, ops=case["ops"][:i + 1]), clock, lambda c: first_violation(c, clock) is not None)
@@ -458,6 +512,10 @@ def check_case(ctx, case, clock, use_model=True):
         ctx.extra.setdefault("_batch", []).append((case, out))
     for op in case["ops"]:
         ctx.cover("op_" + (op[1] if op[0] == "pkt" else op[0]))
+        if op[0] == "pkt":
+            ctx.cover("coord_" + ("S" if op[4] < 0 else "N") + ("W" if op[5] < 0 else "E"))
+            if abs(op[4]) == 900000000 or abs(op[5]) == 1800000000:
+                ctx.cover("coord_at_pole_or_180")
     for line in out[1:]:
         ctx.cover("res_" + line.split(" ")[0] if line.split(" ")[0] in ("ok", "dup", "dad") else "res_other")
     ctx.nontrivial(("hist", case["base"], len(case["ops"]), case["lifetime_s"], case["dpl"]))
@@ -533,6 +591,44 @@ def check_order(ctx):
             ctx.violation(f"TST order disagrees with real time: x={x} d={d}", {"kind": "order", "a": (x + d) % W, "b": x % W})
 
 
+# ------------------------------------------------------------------------------------------------ duplicate list ring
+
+def check_dpl(ctx):
+    """`LocationTableEntry.check_duplicate_sn` on the real class vs the model's `dplPushE` (Python's behaviour incl. the
+    IndexError branch for itsGnDPLLength = 0) and `dplPush` (the ring the history theorems use; flagged `!ring` by the
+    driver when the two differ for a well-formed length)"""
+    from flexstack.geonet.mib import MIB
+    from flexstack.geonet.location_table import LocationTableEntry
+    lines, reals = [], []
+    for L in (0, 1, 2, 3, 8):
+        for _ in range(ctx.scale(6, 60)):
+            e = LocationTableEntry(MIB(itsGnDPLLength=L))
+            for _ in range(ctx.rng.randrange(1, 3 * L + 4)):
+                sn = ctx.rng.choice([ctx.rng.randrange(0, 6), ctx.rng.randrange(0, 65536)])
+                before = list(e.dpl_deque)
+                try:
+                    e.check_duplicate_sn(sn)
+                    r = "ok " + (",".join(str(x) for x in e.dpl_deque) or "-")
+                except Exception as ex:  # noqa: BLE001
+                    r = type(ex).__name__
+                ctx.evals()
+                if r == "DuplicatedPacketException":
+                    if sn not in before:
+                        ctx.violation(f"check_duplicate_sn({sn}) reports a duplicate, list {before}", {"kind": "dpl", "L": L, "before": before, "sn": sn})
+                    continue
+                if sn in before:
+                    ctx.violation(f"check_duplicate_sn({sn}) accepts a duplicate, list {before}", {"kind": "dpl", "L": L, "before": before, "sn": sn})
+                if L > 0 and r != "ok " + ",".join(str(x) for x in (before + [sn])[-L:]):
+                    ctx.violation(f"duplicate list after {sn}: {r}, expected the last {L} of {before + [sn]}", {"kind": "dpl", "L": L, "before": before, "sn": sn})
+                ctx.cover("dpl_L0_IndexError" if (L == 0 and r == "IndexError") else f"dpl_L{L}_{r.split()[0]}")
+                lines.append(f"dple {L} {sn} " + (",".join(str(x) for x in before) or "-"))
+                reals.append(((L, before, sn), r))
+    if ctx.model_ok and lines:
+        for (inp, r), mo in zip(reals, ctx.model("LocT", lines)):
+            if r != mo:
+                ctx.mismatch("dpl.ring", list(inp), r, mo)
+
+
 # ------------------------------------------------------------------------------------------------ entry points
 
 def detect_lazy(clock):
@@ -563,9 +659,14 @@ def run(ctx):
                         ctx.violation(f"corpus order case {name}", c)
                     ctx.cover("corpus_cases")
             check_order(ctx)
+            check_dpl(ctx)
             n = ctx.scale(300, 20000)
             for i in range(n):
-                case = gen_history(ctx.rng, ctx.rng.randrange(5, ctx.scale(60, 150)))
+                if i % 6 == 5:
+                    case = gen_chain(ctx.rng)
+                    ctx.cover("refresh_chains")
+                else:
+                    case = gen_history(ctx.rng, ctx.rng.randrange(5, ctx.scale(60, 150)))
                 check_case(ctx, case, clock)
                 if i == 0:
                     ctx.sample("history", {"self": case["self"], "lifetime_s": case["lifetime_s"], "ops": case["ops"][:6]})
@@ -590,7 +691,8 @@ def search(ctx):
             for _ in range(ctx.scale(900, 36000)):
                 if ctx.violations:
                     break
-                check_case(ctx, gen_history(ctx.rng, ctx.rng.randrange(5, 80)), clock, use_model=False)
+                check_case(ctx, gen_chain(ctx.rng) if ctx.rng.random() < 0.15 else gen_history(ctx.rng, ctx.rng.randrange(5, 80)),
+                           clock, use_model=False)
     finally:
         ctx.model_ok = ok
         router_mod.Timer = threading.Timer
@@ -607,6 +709,21 @@ def replay(ctx, obj, quiet=False):
         if not quiet:
             print(f"TST({a}) > TST({b}) = {ta > tb}; reverse {tb > ta}; sub {ta - tb}: {'violated' if bad else 'ok'}")
         return bool(bad)
+    if kind == "dpl":
+        from flexstack.geonet.mib import MIB
+        from flexstack.geonet.location_table import LocationTableEntry
+        e = LocationTableEntry(MIB(itsGnDPLLength=case["L"]))
+        for x in case["before"]:
+            e.check_duplicate_sn(x)
+        try:
+            e.check_duplicate_sn(case["sn"])
+            r = list(e.dpl_deque)
+        except Exception as ex:  # noqa: BLE001
+            r = type(ex).__name__
+        want = "DuplicatedPacketException" if case["sn"] in case["before"] else (case["before"] + [case["sn"]])[-case["L"]:]
+        if not quiet:
+            print(f"check_duplicate_sn({case['sn']}) on {case['before']} (L={case['L']}): {r}, expected {want}")
+        return r != want
     if kind == "hist":
         router_mod.Timer = _NoTimer
         try:
